@@ -195,8 +195,8 @@ LEVEL_TEXT['C18'] += ' Added (unit cmdline): Parser::command_line parses one lis
 TECH['C18'] += ' + Parser::command_line / newline_and_here_doc_contents (monitor of tokens peeked or taken beyond the newline)'
 LEVEL_TEXT['C02'] += ' Added (unit listparse): Parser::list hands out exactly the and-or lists parsed, in order, an item being asynchronous exactly when the separator right after it was `&`.'
 TECH['C02'] += ' + Parser::list (monitor of parsed and-or lists and separators)'
-LEVEL_TEXT['C20'] += ' Added (unit cdsyntax, unbounded Verus proof): the interpretation the cd built-in gives to parsed options and operands depends only on the sequence of occurrences and the operands, by the documented rules (last of -L / -P wins, -e only with -P, at most one non-empty operand).'
-TECH['C20'] += ' + contract-based deductive verification (Verus, Z3) of cd::syntax::parse'
+LEVEL_TEXT['C20'] += ' Added (unit cdsyntax, unbounded Verus proof): the interpretation the cd built-in gives to parsed options and operands depends only on the sequence of occurrences and the operands, by the documented rules (last of -L / -P wins, -e only with -P, at most one non-empty operand); the same for the read built-in (unit readsyntax: last -d names the delimiter, -r raw, last operand the last variable).'
+TECH['C20'] += ' + contract-based deductive verification (Verus, Z3) of cd::syntax::parse and read::syntax::parse'
 LEVEL_TEXT['C02'] += ' Added (unit andorparse): Parser::and_or_list pairs every pipeline after the first with the operator consumed right in front of it (AndThen exactly for `&&`).'
 TECH['C02'] += ' + Parser::and_or_list'
 
